@@ -260,6 +260,20 @@ def run(M, rep, tier, only=None):
                     n11 += 1
                     if not (a[0] == "call" and a[1] == "type"):
                         bad11 = (p, show(a)[:120])
+        badn = None
+        nn = 0
+        for p in c11_.paths(f11, "Block", max_paths=60000):
+            for e in p.events:
+                if e.kind == "local" and e.op == "setitem" and e.args and e.func == f11.qual and \
+                        any(x and x[0] == "elem" for x in subterms(e.key.t if e.key is not None else ())):
+                    nn += 1
+                    txt = show(e.args[0].t)
+                    if "string_dtype" not in txt and "vlen_str" not in txt:
+                        badn = (p, txt[:100])
+        rep.check(R11, "Block.create_data_frame/type normalisation", badn is None,
+                  "a column type is rewritten to %s: the only normalisation the statement allows is text -> variable-length text; "
+                  "any other rewrite changes the type a column reports and stores (bool is a subclass of int!)" % (badn[1] if badn else ""),
+                  site=f11.file + ":%d" % f11.node.lineno, detail=describe_path(badn[0], 30) if badn else None)
         rep.check(R11, "Block.create_data_frame/inferred column types", bad11 is None and n11 > 0,
                   "the type of a column inferred from the first row is %s, not the cell's own type: integer widths, signedness and float32 "
                   "are replaced by the value class's default type" % (bad11[1] if bad11 else "never taken from the cells"),
